@@ -362,7 +362,7 @@ func checkC11cut(p *Parser, R0, r *CallResult, faults []kernel.Fault, recoverOn 
 	return "", "", nil
 }
 
-var faultKinds = []string{"err", "panic-err", "panic-str", "panic-int", "panic-struct", "panic-stringer", "panic-badstringer", "panic-runtime", "errnested", "errdup", "errlate"}
+var faultKinds = []string{"err", "panic-err", "panic-str", "panic-int", "panic-struct", "panic-stringer", "panic-badstringer", "panic-runtime", "errnested", "errdup", "errlate", "errjoin"}
 
 // campaignC11 records the fault-free execution and then injects faults at the
 // code-block invocations of that execution.
@@ -417,9 +417,9 @@ func campaignC11(p *Parser, req *Request, resp *Response) {
 		evs := R0.Events
 		if len(evs) <= singleMax {
 			for i := range evs {
-				for k, kind := range faultKinds[:9] {
+				for k, kind := range faultKinds {
 					// every event gets err and panic-err; the other payloads rotate
-					if k >= 2 && (i+k)%3 != 0 {
+					if kind == "errdup" || (k >= 2 && (i+k)%3 != 0) {
 						continue
 					}
 					sets = append(sets, []kernel.Fault{{Site: evs[i].Site, N: evs[i].N, Kind: kind}})
@@ -477,6 +477,8 @@ func campaignC11(p *Parser, req *Request, resp *Response) {
 						kind = "errnested"
 					case c == 7:
 						kind = "errlate"
+					case c == 6:
+						kind = "errjoin"
 					case c == 9:
 						kind = faultKinds[1+simrt.Choose(7)]
 					}
